@@ -1,0 +1,137 @@
+//go:build verif
+
+// Contracts for runtime configuration (options.go, absnfs.go): C24. Comment-only file.
+package absnfs
+
+// value a numeric or duration option takes: what was given if positive, else the construction default
+//@ specdef dflt(x mathint, d mathint) mathint = ite(x <= 0, d, x)
+
+// a serviceable tuning snapshot: exactly what New establishes
+//@ specdef tuningOK(t *TuningOptions) bool = t != nil && t.TransferSize > 0 && t.AttrCacheTimeout > 0 && t.AttrCacheSize > 0 && t.NegativeCacheTimeout > 0 && t.DirCacheTimeout > 0 && t.DirCacheMaxEntries > 0 && t.DirCacheMaxDirSize > 0 && t.MaxConnections > 0 && t.IdleTimeout > 0 && t.SendBufferSize > 0 && t.ReceiveBufferSize > 0 && t.MaxWorkers > 0 && t.Timeouts != nil && t.Timeouts.ReadTimeout > 0 && t.Timeouts.WriteTimeout > 0 && t.Timeouts.LookupTimeout > 0 && t.Timeouts.ReaddirTimeout > 0 && t.Timeouts.CreateTimeout > 0 && t.Timeouts.RemoveTimeout > 0 && t.Timeouts.RenameTimeout > 0 && t.Timeouts.HandleTimeout > 0 && t.Timeouts.DefaultTimeout > 0
+
+//@ func normalizeTuning
+//@ prop C24
+//@ requires t != nil
+//@ modifies t.TransferSize, t.AttrCacheTimeout, t.AttrCacheSize, t.NegativeCacheTimeout, t.DirCacheTimeout, t.DirCacheMaxEntries, t.DirCacheMaxDirSize, t.MaxConnections, t.IdleTimeout, t.SendBufferSize, t.ReceiveBufferSize, t.MaxWorkers, t.Timeouts, fields(TimeoutConfig)
+//@ ensures [TransferSize] t.TransferSize == dflt(old(t.TransferSize), 65536)
+//@ ensures [AttrCacheTimeout] t.AttrCacheTimeout == dflt(old(t.AttrCacheTimeout), 5000000000)
+//@ ensures [AttrCacheSize] t.AttrCacheSize == dflt(old(t.AttrCacheSize), 10000)
+//@ ensures [NegativeCacheTimeout] t.NegativeCacheTimeout == dflt(old(t.NegativeCacheTimeout), 5000000000)
+//@ ensures [DirCacheTimeout] t.DirCacheTimeout == dflt(old(t.DirCacheTimeout), 10000000000)
+//@ ensures [DirCacheMaxEntries] t.DirCacheMaxEntries == dflt(old(t.DirCacheMaxEntries), 1000)
+//@ ensures [DirCacheMaxDirSize] t.DirCacheMaxDirSize == dflt(old(t.DirCacheMaxDirSize), 10000)
+//@ ensures [MaxConnections] t.MaxConnections == dflt(old(t.MaxConnections), 100)
+//@ ensures [IdleTimeout] t.IdleTimeout == dflt(old(t.IdleTimeout), 300000000000)
+//@ ensures [SendBufferSize] t.SendBufferSize == dflt(old(t.SendBufferSize), 262144)
+//@ ensures [ReceiveBufferSize] t.ReceiveBufferSize == dflt(old(t.ReceiveBufferSize), 262144)
+//@ ensures [MaxWorkers] t.MaxWorkers > 0 && (old(t.MaxWorkers) > 0 ==> t.MaxWorkers == old(t.MaxWorkers))
+//@ ensures [Timeouts-nonnil] t.Timeouts != nil && (old(t.Timeouts) != nil ==> t.Timeouts == old(t.Timeouts))
+//@ ensures [T-ReadTimeout] t.Timeouts.ReadTimeout == ite(old(t.Timeouts) == nil, 30000000000, dflt(old(t.Timeouts.ReadTimeout), 30000000000))
+//@ ensures [T-WriteTimeout] t.Timeouts.WriteTimeout == ite(old(t.Timeouts) == nil, 60000000000, dflt(old(t.Timeouts.WriteTimeout), 60000000000))
+//@ ensures [T-LookupTimeout] t.Timeouts.LookupTimeout == ite(old(t.Timeouts) == nil, 10000000000, dflt(old(t.Timeouts.LookupTimeout), 10000000000))
+//@ ensures [T-ReaddirTimeout] t.Timeouts.ReaddirTimeout == ite(old(t.Timeouts) == nil, 30000000000, dflt(old(t.Timeouts.ReaddirTimeout), 30000000000))
+//@ ensures [T-CreateTimeout] t.Timeouts.CreateTimeout == ite(old(t.Timeouts) == nil, 15000000000, dflt(old(t.Timeouts.CreateTimeout), 15000000000))
+//@ ensures [T-RemoveTimeout] t.Timeouts.RemoveTimeout == ite(old(t.Timeouts) == nil, 15000000000, dflt(old(t.Timeouts.RemoveTimeout), 15000000000))
+//@ ensures [T-RenameTimeout] t.Timeouts.RenameTimeout == ite(old(t.Timeouts) == nil, 20000000000, dflt(old(t.Timeouts.RenameTimeout), 20000000000))
+//@ ensures [T-HandleTimeout] t.Timeouts.HandleTimeout == ite(old(t.Timeouts) == nil, 5000000000, dflt(old(t.Timeouts.HandleTimeout), 5000000000))
+//@ ensures [T-DefaultTimeout] t.Timeouts.DefaultTimeout == ite(old(t.Timeouts) == nil, 30000000000, dflt(old(t.Timeouts.DefaultTimeout), 30000000000))
+//@ ensures [ok] tuningOK(t)
+//@ ensures [other-timeouts-untouched] forall(o, *TimeoutConfig, o != t.Timeouts && !fresh(o) ==> o.ReadTimeout == old(o.ReadTimeout) && o.DefaultTimeout == old(o.DefaultTimeout))
+
+//@ func tuningFromExportOptions
+//@ prop C24
+//@ modifies locks
+//@ requires opts != nil
+//@ ensures [fresh] result != nil && fresh(result)
+//@ ensures [fields] result.TransferSize == opts.TransferSize && result.AttrCacheTimeout == opts.AttrCacheTimeout && result.AttrCacheSize == opts.AttrCacheSize && result.NegativeCacheTimeout == opts.NegativeCacheTimeout && result.DirCacheTimeout == opts.DirCacheTimeout && result.DirCacheMaxEntries == opts.DirCacheMaxEntries && result.DirCacheMaxDirSize == opts.DirCacheMaxDirSize && result.MaxConnections == opts.MaxConnections && result.IdleTimeout == opts.IdleTimeout && result.SendBufferSize == opts.SendBufferSize && result.ReceiveBufferSize == opts.ReceiveBufferSize && result.MaxWorkers == opts.MaxWorkers && result.CacheNegativeLookups == opts.CacheNegativeLookups && result.EnableDirCache == opts.EnableDirCache && result.TCPKeepAlive == opts.TCPKeepAlive && result.TCPNoDelay == opts.TCPNoDelay && result.Async == opts.Async
+//@ ensures [log] (opts.Log == nil ==> result.Log == nil) && (opts.Log != nil ==> result.Log != nil && fresh(result.Log) && *result.Log == *opts.Log)
+//@ ensures [timeouts] (opts.Timeouts == nil ==> result.Timeouts == nil) && (opts.Timeouts != nil ==> result.Timeouts != nil && fresh(result.Timeouts) && *result.Timeouts == *opts.Timeouts)
+
+//@ func policyFromExportOptions
+//@ prop C24
+//@ modifies locks
+//@ requires opts != nil
+//@ ensures [fresh] result != nil && fresh(result)
+//@ ensures [fields] result.ReadOnly == opts.ReadOnly && result.Secure == opts.Secure && result.Squash == opts.Squash && result.MaxFileSize == opts.MaxFileSize && result.EnableRateLimiting == opts.EnableRateLimiting
+//@ ensures [allowed-ips] len(result.AllowedIPs) == len(opts.AllowedIPs) && forall(i, 0, len(opts.AllowedIPs), result.AllowedIPs[i] == opts.AllowedIPs[i])
+//@ ensures [ratelimit] (opts.RateLimitConfig == nil ==> result.RateLimitConfig == nil) && (opts.RateLimitConfig != nil ==> result.RateLimitConfig != nil && *result.RateLimitConfig == *opts.RateLimitConfig)
+
+//@ func exportOptionsFromSnapshots
+//@ prop C24
+//@ modifies locks
+//@ requires t != nil && p != nil
+//@ ensures [tuning-fields] result.TransferSize == t.TransferSize && result.AttrCacheTimeout == t.AttrCacheTimeout && result.AttrCacheSize == t.AttrCacheSize && result.NegativeCacheTimeout == t.NegativeCacheTimeout && result.DirCacheTimeout == t.DirCacheTimeout && result.DirCacheMaxEntries == t.DirCacheMaxEntries && result.DirCacheMaxDirSize == t.DirCacheMaxDirSize && result.MaxConnections == t.MaxConnections && result.IdleTimeout == t.IdleTimeout && result.SendBufferSize == t.SendBufferSize && result.ReceiveBufferSize == t.ReceiveBufferSize && result.MaxWorkers == t.MaxWorkers && result.CacheNegativeLookups == t.CacheNegativeLookups && result.EnableDirCache == t.EnableDirCache && result.TCPKeepAlive == t.TCPKeepAlive && result.TCPNoDelay == t.TCPNoDelay && result.Async == t.Async
+//@ ensures [policy-fields] result.ReadOnly == p.ReadOnly && result.Secure == p.Secure && result.Squash == p.Squash && result.MaxFileSize == p.MaxFileSize && result.EnableRateLimiting == p.EnableRateLimiting
+//@ ensures [allowed-ips] len(result.AllowedIPs) == len(p.AllowedIPs) && forall(i, 0, len(p.AllowedIPs), result.AllowedIPs[i] == p.AllowedIPs[i])
+//@ ensures [timeouts] (t.Timeouts == nil ==> result.Timeouts == nil) && (t.Timeouts != nil ==> result.Timeouts != nil && *result.Timeouts == *t.Timeouts)
+//@ ensures [log] (t.Log == nil ==> result.Log == nil) && (t.Log != nil ==> result.Log != nil && *result.Log == *t.Log)
+//@ ensures [ratelimit] (p.RateLimitConfig == nil ==> result.RateLimitConfig == nil) && (p.RateLimitConfig != nil ==> result.RateLimitConfig != nil && *result.RateLimitConfig == *p.RateLimitConfig)
+
+//@ func AbsfsNFS.GetExportOptions
+//@ prop C24
+//@ modifies locks
+//@ requires n != nil && curTuning(n) != nil && curPolicy(n) != nil
+// GetExportOptions reports the configuration in force
+//@ ensures [tuning-in-force] result.TransferSize == curTuning(n).TransferSize && result.AttrCacheTimeout == curTuning(n).AttrCacheTimeout && result.AttrCacheSize == curTuning(n).AttrCacheSize && result.NegativeCacheTimeout == curTuning(n).NegativeCacheTimeout && result.DirCacheTimeout == curTuning(n).DirCacheTimeout && result.DirCacheMaxEntries == curTuning(n).DirCacheMaxEntries && result.DirCacheMaxDirSize == curTuning(n).DirCacheMaxDirSize && result.MaxConnections == curTuning(n).MaxConnections && result.IdleTimeout == curTuning(n).IdleTimeout && result.SendBufferSize == curTuning(n).SendBufferSize && result.ReceiveBufferSize == curTuning(n).ReceiveBufferSize && result.MaxWorkers == curTuning(n).MaxWorkers && result.CacheNegativeLookups == curTuning(n).CacheNegativeLookups && result.EnableDirCache == curTuning(n).EnableDirCache && result.TCPKeepAlive == curTuning(n).TCPKeepAlive && result.TCPNoDelay == curTuning(n).TCPNoDelay && result.Async == curTuning(n).Async
+//@ ensures [policy-in-force] result.ReadOnly == curPolicy(n).ReadOnly && result.Secure == curPolicy(n).Secure && result.Squash == curPolicy(n).Squash && result.MaxFileSize == curPolicy(n).MaxFileSize && result.EnableRateLimiting == curPolicy(n).EnableRateLimiting
+
+//@ func AbsfsNFS.UpdateTuningOptions
+//@ prop C24
+//@ requires n != nil && curTuning(n) != nil
+//@ modifies atomicptr, fields(TuningOptions), fields(TimeoutConfig), fields(LogConfig), fields(AttrCache), fields(DirCache), fields(WorkerPool), n.structuredLogger, locks, everything
+// whatever the callback does to the snapshot it is given, what gets published is serviceable
+//@ ensures [published-ok] tuningOK(curTuning(n))
+//@ ensures [policy-untouched] atomicptr[addr(n.policy)] == old(atomicptr[addr(n.policy)])
+//@ ensures [unlocked] held(n.tuningMu) == 0
+
+//@ func AbsfsNFS.UpdatePolicyOptions
+//@ prop C24 C16
+//@ requires n != nil && curPolicy(n) != nil
+// rejected (Squash change) <=> nothing is published
+//@ ensures [reject-iff-squash] !isnil(result) <==> old(curPolicy(n).Squash) != newPolicy.Squash
+//@ ensures [rejected-unchanged] !isnil(result) ==> atomicptr == old(atomicptr) && n.rateLimiter == old(n.rateLimiter)
+//@ ensures [published] isnil(result) ==> curPolicy(n) != nil && fresh(curPolicy(n)) && curPolicy(n).ReadOnly == newPolicy.ReadOnly && curPolicy(n).Secure == newPolicy.Secure && curPolicy(n).Squash == newPolicy.Squash && curPolicy(n).MaxFileSize == newPolicy.MaxFileSize && curPolicy(n).EnableRateLimiting == newPolicy.EnableRateLimiting
+//@ ensures [tuning-untouched] atomicptr[addr(n.tuning)] == old(atomicptr[addr(n.tuning)])
+//@ ensures [unlocked] held(n.policyMu) == 0 && held(n.policyRWMu) == 0
+
+//@ func AbsfsNFS.UpdateExportOptions
+//@ prop C24
+//@ requires n == nil || (curTuning(n) != nil && curPolicy(n) != nil)
+// all-or-nothing: a rejected update leaves the entire configuration unchanged
+//@ ensures [all-or-nothing] !isnil(result) && n != nil ==> atomicptr[addr(n.tuning)] == old(atomicptr[addr(n.tuning)]) && atomicptr[addr(n.policy)] == old(atomicptr[addr(n.policy)])
+//@ ensures [accepted-serviceable] isnil(result) ==> tuningOK(curTuning(n))
+
+//@ func AbsfsNFS.initAtomicOptions
+//@ prop C24
+//@ requires n != nil && opts != nil
+//@ modifies atomicptr, n.tuning, n.policy
+//@ ensures [tuning] curTuning(n) != nil && fresh(curTuning(n)) && curTuning(n).TransferSize == opts.TransferSize && curTuning(n).AttrCacheTimeout == opts.AttrCacheTimeout && curTuning(n).AttrCacheSize == opts.AttrCacheSize && curTuning(n).NegativeCacheTimeout == opts.NegativeCacheTimeout && curTuning(n).DirCacheTimeout == opts.DirCacheTimeout && curTuning(n).DirCacheMaxEntries == opts.DirCacheMaxEntries && curTuning(n).DirCacheMaxDirSize == opts.DirCacheMaxDirSize && curTuning(n).MaxConnections == opts.MaxConnections && curTuning(n).IdleTimeout == opts.IdleTimeout && curTuning(n).SendBufferSize == opts.SendBufferSize && curTuning(n).ReceiveBufferSize == opts.ReceiveBufferSize && curTuning(n).MaxWorkers == opts.MaxWorkers && curTuning(n).CacheNegativeLookups == opts.CacheNegativeLookups && curTuning(n).EnableDirCache == opts.EnableDirCache && curTuning(n).Async == opts.Async && curTuning(n).TCPKeepAlive == opts.TCPKeepAlive && curTuning(n).TCPNoDelay == opts.TCPNoDelay
+//@ ensures [timeouts] (opts.Timeouts == nil ==> curTuning(n).Timeouts == nil) && (opts.Timeouts != nil ==> curTuning(n).Timeouts != nil && fresh(curTuning(n).Timeouts) && *curTuning(n).Timeouts == *opts.Timeouts)
+//@ ensures [policy] curPolicy(n) != nil && fresh(curPolicy(n)) && curPolicy(n).ReadOnly == opts.ReadOnly && curPolicy(n).Secure == opts.Secure && curPolicy(n).Squash == opts.Squash && curPolicy(n).MaxFileSize == opts.MaxFileSize && curPolicy(n).EnableRateLimiting == opts.EnableRateLimiting
+
+// Construction establishes a serviceable configuration with the documented defaults: the SAME table
+// (dflt) that normalizeTuning applies at runtime.
+//@ func New
+//@ prop C24
+//@ ensures [server-or-error] isnil(result1) <==> result0 != nil
+//@ ensures [tuning-defaults] isnil(result1) ==> curTuning(result0) != nil && curTuning(result0).TransferSize == dflt(options.TransferSize, 65536) && curTuning(result0).AttrCacheTimeout == dflt(options.AttrCacheTimeout, 5000000000) && curTuning(result0).AttrCacheSize == dflt(options.AttrCacheSize, 10000) && curTuning(result0).NegativeCacheTimeout == dflt(options.NegativeCacheTimeout, 5000000000) && curTuning(result0).DirCacheTimeout == dflt(options.DirCacheTimeout, 10000000000) && curTuning(result0).DirCacheMaxEntries == dflt(options.DirCacheMaxEntries, 1000) && curTuning(result0).DirCacheMaxDirSize == dflt(options.DirCacheMaxDirSize, 10000) && curTuning(result0).MaxConnections == dflt(options.MaxConnections, 100) && curTuning(result0).IdleTimeout == dflt(options.IdleTimeout, 300000000000) && curTuning(result0).SendBufferSize == dflt(options.SendBufferSize, 262144) && curTuning(result0).ReceiveBufferSize == dflt(options.ReceiveBufferSize, 262144)
+//@ ensures [workers] isnil(result1) ==> curTuning(result0).MaxWorkers > 0 && (options.MaxWorkers > 0 ==> curTuning(result0).MaxWorkers == options.MaxWorkers)
+//@ ensures [timeouts] isnil(result1) ==> curTuning(result0).Timeouts != nil && curTuning(result0).Timeouts.ReadTimeout == ite(options.Timeouts == nil, 30000000000, dflt(old(options.Timeouts.ReadTimeout), 30000000000)) && curTuning(result0).Timeouts.WriteTimeout == ite(options.Timeouts == nil, 60000000000, dflt(old(options.Timeouts.WriteTimeout), 60000000000)) && curTuning(result0).Timeouts.LookupTimeout == ite(options.Timeouts == nil, 10000000000, dflt(old(options.Timeouts.LookupTimeout), 10000000000)) && curTuning(result0).Timeouts.ReaddirTimeout == ite(options.Timeouts == nil, 30000000000, dflt(old(options.Timeouts.ReaddirTimeout), 30000000000)) && curTuning(result0).Timeouts.CreateTimeout == ite(options.Timeouts == nil, 15000000000, dflt(old(options.Timeouts.CreateTimeout), 15000000000)) && curTuning(result0).Timeouts.RemoveTimeout == ite(options.Timeouts == nil, 15000000000, dflt(old(options.Timeouts.RemoveTimeout), 15000000000)) && curTuning(result0).Timeouts.RenameTimeout == ite(options.Timeouts == nil, 20000000000, dflt(old(options.Timeouts.RenameTimeout), 20000000000)) && curTuning(result0).Timeouts.HandleTimeout == ite(options.Timeouts == nil, 5000000000, dflt(old(options.Timeouts.HandleTimeout), 5000000000)) && curTuning(result0).Timeouts.DefaultTimeout == ite(options.Timeouts == nil, 30000000000, dflt(old(options.Timeouts.DefaultTimeout), 30000000000))
+//@ ensures [serviceable] isnil(result1) ==> tuningOK(curTuning(result0))
+//@ ensures [policy] isnil(result1) ==> curPolicy(result0) != nil && curPolicy(result0).ReadOnly == options.ReadOnly && curPolicy(result0).Secure == options.Secure && curPolicy(result0).Squash == options.Squash && curPolicy(result0).MaxFileSize == options.MaxFileSize && curPolicy(result0).EnableRateLimiting == options.EnableRateLimiting
+//@ ensures [wired-filemap] isnil(result1) ==> result0.fileMap != nil && result0.fileMap.handles != nil && result0.fileMap.pathHandles != nil && result0.fileMap.nextHandle == 1
+//@ ensures [wired-root] isnil(result1) ==> result0.root != nil && result0.root.attrs != nil && result0.root.path == "/"
+//@ ensures [wired-cache] isnil(result1) ==> result0.attrCache != nil
+
+
+// C30 (rotation) depends on this: Clone returns a DIFFERENT object with the same settings
+//@ func TLSConfig.Clone
+//@ prop C24 C30
+//@ modifies locks
+//@ ensures [nil] tc == nil ==> result == nil
+//@ ensures [copy] tc != nil ==> result != nil && fresh(result) && result.Enabled == tc.Enabled && result.CertFile == tc.CertFile && result.KeyFile == tc.KeyFile && result.CAFile == tc.CAFile && result.ClientAuth == tc.ClientAuth && result.MinVersion == tc.MinVersion && result.MaxVersion == tc.MaxVersion
+//@ ensures [unlocked] tc != nil ==> held(tc.mu) == 0
+
+//@ func NewAttrCache
+//@ prop C24 C21
+//@ ensures [nonnil] result != nil && fresh(result)
